@@ -7,21 +7,22 @@ CXXFLAGS := -std=gnu++17 $(CFLAGS) -I$(V)/props
 CC     := clang
 CXX    := clang++
 LIBNNG := $(B)/san/libnng.a
+NNGDEFS = $(shell cat $(B)/san/nng_defs.txt)
 WRAPS  := nni_plat_mtx_lock nni_plat_mtx_unlock nni_plat_cv_wake nni_plat_cv_wake1 nni_plat_cv_wait nni_plat_cv_until \
-          nni_plat_thr_init nni_plat_thr_fini nni_clock nni_msleep epoll_wait
+          nni_plat_thr_init nni_plat_thr_fini nni_clock nni_msleep epoll_wait nni_random
 WRAPF  := $(foreach w,$(WRAPS),-Wl,--wrap=$(w))
 
+# in-process properties / properties under the deterministic scheduler (DST)
 PURE   := C17 C19 C18
-EXTRA_C18 := $(B)/obj/shim_core.o
-ALL    := $(PURE)
+DST    := C05
+ALL    := $(PURE) $(DST)
 
 all: $(addprefix $(B)/bin/,$(ALL))
 
 $(B)/obj/%.o: $(V)/engine/%.c $(LIBNNG)
 	@mkdir -p $(B)/obj
-	$(CC) $(CFLAGS) -MMD -c $< -o $@
+	$(CC) $(CFLAGS) $(NNGDEFS) -MMD -c $< -o $@
 
-NNGDEFS = $(shell cat $(B)/san/nng_defs.txt)
 $(B)/obj/%.o: $(V)/props/%.c $(LIBNNG)
 	@mkdir -p $(B)/obj
 	$(CC) $(CFLAGS) $(NNGDEFS) -MMD -c $< -o $@
@@ -30,10 +31,16 @@ $(B)/obj/%.o: $(V)/props/%.cpp $(V)/engine/pbt.hpp $(LIBNNG)
 	@mkdir -p $(B)/obj
 	$(CXX) $(CXXFLAGS) -MMD -c $< -o $@
 
+EXTRA :=
+$(B)/bin/C18: EXTRA = $(B)/obj/shim_core.o
 $(B)/bin/C18: $(B)/obj/shim_core.o
+DSTOBJ := $(B)/obj/vsched.o $(B)/obj/nngh.o
+$(addprefix $(B)/bin/,$(DST)): EXTRA = $(DSTOBJ) $(WRAPF)
+$(addprefix $(B)/bin/,$(DST)): $(DSTOBJ)
+
 $(B)/bin/%: $(B)/obj/%.o $(B)/obj/caseio.o $(LIBNNG)
 	@mkdir -p $(B)/bin
-	$(CXX) $(CXXFLAGS) -o $@ $(B)/obj/$*.o $(B)/obj/caseio.o $(EXTRA_$*) $(LIBNNG) -lrapidcheck -lpthread
+	$(CXX) $(CXXFLAGS) -o $@ $(B)/obj/$*.o $(B)/obj/caseio.o $(EXTRA) $(LIBNNG) -lrapidcheck -lpthread
 
 # ---- libFuzzer targets (linked against the fuzzer-no-link instrumented library)
 FUZZLIB := $(B)/fuzz/libnng.a
@@ -42,7 +49,7 @@ $(B)/obj/fz_caseio.o: $(V)/engine/caseio.c
 	$(CC) $(CFLAGS) -fsanitize=fuzzer-no-link -c $< -o $@
 $(B)/bin/fz_%: $(V)/fuzz/fz_%.cc $(B)/obj/fz_caseio.o $(FUZZLIB) $(wildcard $(V)/props/*.hpp)
 	@mkdir -p $(B)/bin
-	$(CXX) $(CXXFLAGS) -I$(V)/props -fsanitize=fuzzer -o $@ $< $(B)/obj/fz_caseio.o $(FUZZLIB) -lpthread
+	$(CXX) $(CXXFLAGS) -fsanitize=fuzzer -o $@ $< $(B)/obj/fz_caseio.o $(FUZZLIB) -lpthread
 
 -include $(wildcard $(B)/obj/*.d)
 .SECONDARY:
